@@ -134,8 +134,12 @@ pub fn cases<T: KS + Send + Sync>(out: &mut Out, rng0: &mut Rng, tier: &Tier) {
         let st = b(stranded);
         let in_v = base_nodes_v(&base);
         out.nt = is_delicate(&reads, k) || kind == 1 || loose;
+        // the hypothesis of the theorems: rvalid (C09_*) for pruned inputs, rvalid_loose (C09X_*) for inputs with
+        // dangling extension bits
         if !loose {
             out.case("chk.c09.valid_input", l(vec![nu(k), st.clone(), in_v.clone()]), b(true));
+        } else {
+            out.case("chk.c09.valid_input_loose", l(vec![nu(k), st.clone(), in_v.clone()]), b(true));
         }
         // ---- censor lists
         let mut censors: Vec<Option<Vec<usize>>> = Vec::new();
